@@ -136,3 +136,77 @@ func Harness_C06_run() {
 }
 
 var _ = context.Background
+
+// Harness_C06_callback: a handler that is waiting for the reply to its own
+// server push (Callback) is still executing: it keeps its slot, so no further
+// handler is admitted beyond the limit while it waits.
+func Harness_C06_callback() {
+	verifMapOrders(false)
+	limit := 1 + nondetChoice("limit", 2)
+	log := &verifLog{gates: map[string]chan struct{}{}}
+	var s *Server
+	var cbErr error
+	cbReturned := false
+	mux := verifMap{}
+	mux["cb"] = func(ctx context.Context, req *Request) (any, error) {
+		r := &verifRun{name: "cb", id: req.ID(), enter: vclock()}
+		log.runs = append(log.runs, r)
+		log.running++
+		if log.running > log.maxRun {
+			log.maxRun = log.running
+		}
+		_, cbErr = s.Callback(ctx, "ask", nil)
+		cbReturned = true
+		log.running--
+		r.exit = vclock()
+		return "asked", nil
+	}
+	var batch jmessages
+	for i := 0; i < limit; i++ {
+		name := "c" + verifItoa(i)
+		log.gates[name] = make(chan struct{})
+		mux[name] = log.handler(name, name, nil)
+		batch = append(batch, &jmessage{ID: json.RawMessage(verifItoa(i + 2)), M: name, batch: true})
+	}
+	batch = append(batch, &jmessage{ID: json.RawMessage("1"), M: "cb", batch: true})
+	s = NewServer(mux, &ServerOptions{Concurrency: limit, AllowPush: true})
+	rec := &verifRecorder{}
+	s.ch = rec
+	s.mu.Lock()
+	run := s.dispatchLocked(batch, rec)
+	s.mu.Unlock()
+	finished := false
+	go func() { run(); finished = true }()
+	quiesce()
+	// limit+1 handlers for limit slots: one of them waits, whichever the schedule chose
+	vassert(log.maxRun <= limit && log.running == limit, "C06: a handler waiting for its callback still counts: never more handlers executing than the limit")
+	answer := func() {
+		push, _ := tokParse(rec.sent[0])
+		pid, _ := tokMember(push, "id")
+		s.mu.Lock()
+		s.filterBatchLocked(jmessages{&jmessage{ID: pid, R: json.RawMessage("1")}})
+		s.mu.Unlock()
+		quiesce()
+		vassert(cbReturned && cbErr == nil, "the callback returns with the client's reply")
+	}
+	pushed := len(rec.sent) == 1
+	if pushed {
+		vassert(!cbReturned, "the handler waits for the reply to its push")
+		reach("waiting-in-callback")
+		answer()
+		vassert(log.maxRun <= limit, "C06: ... also while the reply is being delivered")
+	}
+	for i := 0; i < limit; i++ {
+		close(log.gates["c"+verifItoa(i)])
+	}
+	quiesce()
+	if !pushed {
+		// the pushing handler was the one that had to wait for a slot
+		vassert(len(rec.sent) == 1 && !cbReturned, "the push goes out once its handler is admitted")
+		answer()
+	}
+	vassert(finished && log.maxRun <= limit, "C06: limit respected to the end")
+	vassert(len(log.runs) == limit+1, "every call ran exactly once")
+	vassert(s.sem.TryAcquire(int64(limit)), "C06: every slot is released when the handlers are done")
+	reach("done")
+}
